@@ -17,12 +17,17 @@ func RuleToASTNode(r schema.RuleASTNode) schema.ASTNode {
 }
 
 // OrItemToASTNode returns the stand-in ASTNode for an item of the "or" rule written
-// on an element whose example value is example. A rule-set with `const: true` fixes
-// the value to that example - not to the type name the stand-in node carries.
-func OrItemToASTNode(r schema.RuleASTNode, example string) schema.ASTNode {
+// on the given element. A rule-set with `const: true` fixes
+// the value to the example of that element - not to the type name the stand-in node carries.
+func OrItemToASTNode(r schema.RuleASTNode, element schema.ASTNode) schema.ASTNode {
 	a := RuleToASTNode(r)
 	if c, ok := a.Rules.Get("const"); ok && c.Value == StringTrue {
-		a.Value = example
+		a.Value = element.Value
+		if IsString(element) && !IsString(a) {
+			// An item of another type can not hold the string example: the value
+			// stays a JSON string (the item then matches nothing, as in the schema).
+			a.Value = string(ToJSONString(element.Value))
+		}
 	}
 	return a
 }
